@@ -1,8 +1,9 @@
 (** When can the ranking arithmetic of the relayer pick panic ("Int overflow")?
     Never for non-negative table values with weights whose absolute values sum to at most the
     LegacyDec upper limit; and it can for governance-set weights near 2^256. *)
-From Coq Require Import List ZArith Bool Lia.
+From Coq Require Import String List ZArith Bool Lia.
 From Paloma Require Import Base.Dec Base.DecProofs Evm.Assign Evm.AssignProofs Evm.AssignOv.
+From Paloma Require Gen.C14.
 Import ListNotations.
 Open Scope Z_scope.
 
@@ -162,6 +163,51 @@ Proof.
   intros j Hj. eapply build_infos_nonneg; eauto.
 Qed.
 
+(** ---- weights that went through SetRelayWeights (validated since the C09 repair) ---- *)
+Example weights_validation_is :
+  Gen.C14.set_relay_weights_validates_before_write = true /\
+  Gen.C14.max_relay_weight = 1000000 /\
+  Gen.C14.relay_weights_validate_rejects = ["v.value.IsNegative() || v.value.GT(maxRelayWeight)"]%string /\
+  Gen.C14.relay_weights_validated_fields = ["Fee"; "Uptime"; "SuccessRate"; "ExecutionTime"; "FeatureSet"]%string.
+Proof. repeat split. Qed.
+Example relay_weights_writers_are :
+  Gen.C14.relay_weights_writers =
+  ["AddSupportForNewChain: literal &types.RelayWeights{ Fee: ""1.0"", Uptime: ""1.0"", SuccessRate: ""1.0"", ExecutionTime: ""1.0"", FeatureSet: ""1.0"", }";
+   "SetRelayWeights: chainInfo.RelayWeights = weights"]%string.
+Proof. reflexivity. Qed.
+
+Lemma valid_weight_range x : valid_weight x = true -> 0 <= x <= max_weight.
+Proof. unfold valid_weight. intros H. apply andb_true_iff in H as [H1 H2]. apply Z.leb_le in H1. apply Z.leb_le in H2. lia. Qed.
+
+Lemma five_max_weights_fit : 5 * max_weight <= upper_limit. Proof. discriminate. Qed.
+
+Lemma valid_weights_sum w : valid_weights w = true -> weight_sum w <= upper_limit.
+Proof.
+  unfold valid_weights. intros H. repeat (apply andb_true_iff in H as [H ?]).
+  repeat match goal with V : valid_weight _ = true |- _ => apply valid_weight_range in V end.
+  pose proof five_max_weights_fit. unfold weight_sum.
+  rewrite !Z.abs_eq by lia. lia.
+Qed.
+
+Lemma default_weights_valid : valid_weights default_weights = true. Proof. reflexivity. Qed.
+
+Lemma stored_weights_valid sets : valid_weights (stored_weights sets) = true.
+Proof.
+  unfold stored_weights. assert (H : valid_weights default_weights = true) by reflexivity.
+  revert H. generalize default_weights. induction sets as [|o r IH]; simpl; intros cur H; auto.
+  apply IH. destruct o as [x|]; simpl; [|reflexivity]. destruct (valid_weights x) eqn:E; auto.
+Qed.
+
+Lemma pick_never_overflows_validated sn ms fs w chain req ts :
+  nonneg_tables ms fs -> valid_weights w = true ->
+  pick_ov sn ms fs w chain req ts = pick sn ms fs w chain req ts.
+Proof. intros Ht Hw. apply pick_never_overflows; auto. apply valid_weights_sum; auto. Qed.
+
+Lemma pick_never_overflows_stored sn ms fs sets chain req ts :
+  nonneg_tables ms fs ->
+  pick_ov sn ms fs (stored_weights sets) chain req ts = pick sn ms fs (stored_weights sets) chain req ts.
+Proof. intros Ht. apply pick_never_overflows_validated; auto. apply stored_weights_valid. Qed.
+
 (** ... and the hypothesis on the weights is needed: with the weights a RelayWeightsProposal may set
     (any decimal string the SDK parses, i.e. up to 2^256) the sum of two weighted columns leaves the
     range and the pick panics although every table value is ordinary. *)
@@ -176,6 +222,9 @@ Definition huge : Z := 10 ^ 77 * prec.
 Definition ov_w : weights := {| w_fee := huge; w_uptime := huge; w_success := huge; w_exec := huge; w_feature := huge |}.
 
 Example huge_weight_is_a_valid_decimal : in_range huge = true. Proof. reflexivity. Qed.
+(** the validated setter refuses them: this is state stored before the repair (written through the hook in X) *)
+Example huge_weights_refused_by_the_setter : valid_weights ov_w = false /\ stored_weights [Some ov_w] = default_weights.
+Proof. split; reflexivity. Qed.
 Example ov_tables_nonneg : nonneg_tables ov_ms ov_fs.
 Proof.
   split.
